@@ -508,8 +508,14 @@ func proxyCase(c *mon.Case) {
 	a, s1raw := net.Pipe()
 	s2raw, b := net.Pipe()
 	s1, s2 := &countedConn{Conn: s1raw}, &countedConn{Conn: s2raw}
-	var cbCount atomic.Int64
-	ioproxy.ProxyStreams(s1, s2, func() { cbCount.Add(1) })
+	var cbCount, cbBeforeClose atomic.Int64
+	ioproxy.ProxyStreams(s1, s2, func() {
+		cbCount.Add(1)
+		// a pump closes both streams before it reports: at every callback both have been closed
+		if s1.closes.Load() == 0 || s2.closes.Load() == 0 {
+			cbBeforeClose.Add(1)
+		}
+	})
 
 	mk := func(n int) []byte {
 		d := make([]byte, n)
@@ -585,6 +591,10 @@ func proxyCase(c *mon.Case) {
 	if closer == 1 {
 		first, other = b, a
 	}
+	if r.IntN(2) == 0 {
+		// both peers hang up at the same moment: both pumps finish on their own
+		go func() { _ = other.Close() }()
+	}
 	_ = first.Close()
 	eofCh := make(chan error, 1)
 	go func() {
@@ -594,6 +604,9 @@ func proxyCase(c *mon.Case) {
 		eofCh <- err
 	}()
 	err := <-eofCh
+	if err != nil && errors.Is(err, io.ErrClosedPipe) {
+		err = io.EOF // we closed this end ourselves in the simultaneous-hang-up variant
+	}
 	if err != io.EOF {
 		if ne, ok := err.(net.Error); ok && ne.Timeout() {
 			c.Violate("model", "proxy-close-propagation", "after one side closed, the other side was not closed (read timed out)")
@@ -606,6 +619,9 @@ func proxyCase(c *mon.Case) {
 	if !mon.Quiesce(5 * time.Second) {
 		c.Inconclusive("no quiescence after close")
 		return
+	}
+	if cbBeforeClose.Load() != 0 {
+		c.Violate("model", "proxy-callback-before-close", "the callback was called %d time(s) while a proxied stream had not been closed yet (s1 closed %d times, s2 %d times at the end)", cbBeforeClose.Load(), s1.closes.Load(), s2.closes.Load())
 	}
 	if cbCount.Load() != 2 {
 		c.Violate("model", "proxy-callback-count", "callback ran %d times at quiescence, want exactly 2", cbCount.Load())
